@@ -80,6 +80,10 @@ Models == <<
       Site(<<"b">>, "flip", 0, <<R2>>),
       Site(<<"s", "y">>, "cat", 1, <<R3a, R3c>>),
       Site(<<"x">>, "cat", 2, <<R3b, R3b, R3a>>) >>],
+  [name |-> "nestf",  fam |-> "nestf",  nargs |-> 0, arg |-> 0, sites |-> <<       \* the FIRST traced call is a nested static function
+      Site(<<"s", "z">>, "cat", 0, <<R3a>>),
+      Site(<<"x">>, "cat", 0, <<R3c>>),
+      Site(<<"y">>, "cat", 2, <<R3a, R3c, R3b>>) >>],
   [name |-> "leaf3",  fam |-> "leaf3",  nargs |-> 0, arg |-> 0, sites |-> <<
       Site(<<"x">>, "cat", 0, <<R3a>>),
       Site(<<"y">>, "cat", 1, <<R3b, R3a, R3c>>),
@@ -124,6 +128,7 @@ Props == <<
   Prop("fork_zx",   "fork",   "exact", <<1, 2>>, 3, << <<R3a, R3b, R3c, R3b>>, <<R3c, R3c, R3a, R3b>> >>),
   Prop("nest_b",    "nest",   "exact", <<1>>,    0, << <<R2>> >>),
   Prop("nest_by",   "nest",   "exact", <<1, 2>>, 3, << <<R2, R2, R2>>, <<R3b, R3a, R3c>> >>),
+  Prop("nestf_m",   "nestf",  "marg",  <<2>>,    0, << <<R3a>> >>),       \* same row as s/z: shared keys make x = z
   Prop("leaf3_x",   "leaf3",  "exact", <<1>>,    0, << <<R3b>> >>),
   Prop("leaf3_xy",  "leaf3",  "exact", <<1, 2>>, 3, << <<R3c, R3c, R3a, R3b>>, <<R3a, R3b, R3c, R3a>> >>),
   Prop("leaf3_m",   "leaf3",  "marg",  <<1, 2>>, 3, << <<R3b, R3a, R3c, R3c>>, <<R3c, R3b, R3a, R3a>> >>),
